@@ -94,25 +94,35 @@ def rule_bytes(repo, rule):
 
 
 def alloc_key(m, fn_name, listname):
+    """Key under which the k-th allocated value (1-based) is referenced: the allocator body is evaluated statement by
+    statement (len(list) is k-1 before the append and k after it; locals are substituted in order)."""
     f = m.functions.get(fn_name)
     if f is None:
         raise AnalysisError("%s not found in %s" % (fn_name, m.name))
-    app = [i for i, s in enumerate(f.node.body) if isinstance(s, ast.Expr) and isinstance(s.value, ast.Call)
-           and norm(s.value.func) == "%s.append" % listname]
-    ret = [i for i, s in enumerate(f.node.body) if isinstance(s, ast.Return)]
-    if not app or not ret:
-        return None
-    r = f.node.body[ret[0]].value
-    cidx = ret[0]
-    if isinstance(r, ast.Name):
-        for i, s_ in enumerate(f.node.body):
-            if isinstance(s_, ast.Assign) and norm(s_.targets[0]) == r.id:
-                r, cidx = s_.value, i
-    if not (isinstance(r, ast.Call) and r.args and isinstance(r.args[0], ast.Dict) and len(r.args[0].keys) == 1):
-        return None
     k = P.sym("k")
-    lenv = k if app[0] < cidx else k - 1
-    return poly_of(r.args[0].keys[0], {"len(%s)" % listname: lenv}, strict=True)
+    env = {}
+    appended = False
+    for s_ in f.node.body:
+        lenv = dict(env)
+        lenv["len(%s)" % listname] = k if appended else k - 1
+        if isinstance(s_, ast.Expr) and isinstance(s_.value, ast.Call) and norm(s_.value.func) == "%s.append" % listname:
+            appended = True
+        elif isinstance(s_, ast.Assign) and len(s_.targets) == 1 and isinstance(s_.targets[0], ast.Name):
+            v = poly_of(s_.value, lenv, strict=True)
+            if v is not None:
+                env[s_.targets[0].id] = v
+            elif isinstance(s_.value, ast.Call) and s_.value.args and isinstance(s_.value.args[0], ast.Dict) and len(s_.value.args[0].keys) == 1:
+                kp = poly_of(s_.value.args[0].keys[0], lenv, strict=True)
+                if kp is not None:
+                    env["<key:%s>" % s_.targets[0].id] = kp
+        elif isinstance(s_, ast.Return) and s_.value is not None:
+            r = s_.value
+            if isinstance(r, ast.Name) and "<key:%s>" % r.id in env:
+                return env["<key:%s>" % r.id] if appended else None
+            if isinstance(r, ast.Call) and r.args and isinstance(r.args[0], ast.Dict) and len(r.args[0].keys) == 1 and appended:
+                return poly_of(r.args[0].keys[0], lenv, strict=True)
+            return None
+    return None
 
 
 def index_map(expr, key, negative):
@@ -186,9 +196,11 @@ def rule_ids(repo, rule):
     # constraint writer's map vs allocator
     wc = repo.fn(ZB, "write_constraints")
     im = None
-    for n in ast.walk(wc.node):
-        if isinstance(n, ast.IfExp) and "len(pubvals)" in norm(n):
-            im = n
+    from ..flatten import helper_closure
+    for f_ in helper_closure(repo, wc):
+        for n in ast.walk(f_.node):
+            if isinstance(n, ast.IfExp) and "len(pubvals)" in norm(n):
+                im = n
     kp = alloc_key(m, "pubval", "pubvals")
     kv = alloc_key(m, "privval", "privvals")
     if im is None or kp is None or kv is None:
@@ -354,20 +366,45 @@ def rule_schema(repo, rule):
     else:
         rule.violation(wcirc.loc(), wcirc.fq, "missing %s" % sorted(need - have), "circuit header lacks a required field", "schema/header")
     wcon = repo.fn(ZB, "write_constraints")
-    abc = [norm(c.func).split(".")[-1][-1] + ":" + norm(c.args[1]) for c in ast.walk(wcon.node) if isinstance(c, ast.Call)
-           and re.search(r"AddLinearCombination[ABC]$", norm(c.func))]
-    srcs = {}
-    for a in ast.walk(wcon.node):
-        if isinstance(a, ast.Assign) and isinstance(a.value, ast.Call) and norm(a.value.func) == "write_lc" and a.value.args:
-            srcs[norm(a.targets[0])] = norm(a.value.args[0])
-    got = sorted((x.split(":")[0], srcs.get(x.split(":")[1])) for x in abc)
-    cvar = None
-    wcf = wcon.children.get("write_constraint")
-    if wcf is not None and wcf.params:
-        cvar = wcf.params[0]
-    want = [("A", "%s[0]" % cvar), ("B", "%s[1]" % cvar), ("C", "%s[2]" % cvar)]
-    if got == want:
-        rule.ok(wcon.loc(), wcon.fq, "A, B, C <- c[0], c[1], c[2]")
+    # A/B/C: on the source as written (helpers not inlined): in the function that fills a BilinearConstraint, the values given
+    # to AddLinearCombinationA/B/C are the results of ONE linear-combination writer applied to parts 0, 1, 2 of ONE constraint
+    pristine = ast.parse(repo.module(ZB).src)
+    holder = None
+    for fn_ in ast.walk(pristine):
+        if isinstance(fn_, ast.FunctionDef):
+            own = [c for c in ast.walk(fn_) if isinstance(c, ast.Call) and re.search(r"AddLinearCombination[ABC]$", norm(c.func))
+                   and not any(isinstance(x, ast.FunctionDef) and x is not fn_ and c in list(ast.walk(x)) for x in ast.walk(fn_))]
+            if len(own) >= 3:
+                holder = (fn_, own)
+    got, want = None, None
+    if holder is not None:
+        fn_, own = holder
+        defs = {}
+        for a_ in ast.walk(fn_):
+            if isinstance(a_, ast.Assign) and len(a_.targets) == 1 and isinstance(a_.targets[0], ast.Name) and isinstance(a_.value, ast.Call):
+                defs.setdefault(a_.targets[0].id, []).append(a_.value)
+        got = []
+        for c in own:
+            letter = norm(c.func)[-1]
+            v = c.args[1] if len(c.args) > 1 else None
+            src = v
+            if isinstance(v, ast.Name) and len(defs.get(v.id, [])) == 1:
+                src = defs[v.id][0]
+            part = None
+            if isinstance(src, ast.Call):
+                subs = [a_ for a_ in src.args if isinstance(a_, ast.Subscript) and isinstance(a_.slice, ast.Constant)]
+                if len(subs) == 1:
+                    part = (norm(src.func), norm(subs[0].value), subs[0].slice.value)
+            got.append((letter, part))
+        got.sort()
+        writers = {p_[0] for _l, p_ in got if p_}
+        cvars = {p_[1] for _l, p_ in got if p_}
+        okabc = len(got) == 3 and all(p_ for _l, p_ in got) and len(writers) == 1 and len(cvars) == 1 \
+            and [(l_, p_[2]) for l_, p_ in got] == [("A", 0), ("B", 1), ("C", 2)]
+    else:
+        okabc = False
+    if okabc:
+        rule.ok(wcon.loc(), wcon.fq, "A, B, C <- %s(c[0]), %s(c[1]), %s(c[2])" % ((sorted(writers)[0],) * 3))
     else:
         rule.violation(wcon.loc(), wcon.fq, str(got), "linear combinations A/B/C are not taken from the constraint's three parts "
                        "in order", "schema/abc")
